@@ -192,7 +192,7 @@ def body_for(beh: Dict[str, Any], req: Optional[Dict[str, Any]]) -> Tuple[bytes,
         return b": just a comment\n\nevent: ping\ndata: {}\n\n", []
     if kind == "sse_bad_json":
         return b"event: message\ndata: {not json\n\n", []
-    if ctype == "sse" or beh.get("force_sse_body"):
+    if ctype in ("sse", "sse_charset", "sse_upper") or beh.get("force_sse_body"):
         enc = beh.get("sse") or {}
         return sse_encode(msgs, enc), msgs
     if kind == "batch" or len(msgs) > 1:
@@ -201,7 +201,9 @@ def body_for(beh: Dict[str, Any], req: Optional[Dict[str, Any]]) -> Tuple[bytes,
 
 
 CTYPES = {"json": "application/json", "json_charset": "application/json; charset=utf-8", "sse": "text/event-stream",
-          "sse_charset": "text/event-stream; charset=utf-8", "other": "text/plain", None: None}
+          "sse_charset": "text/event-stream; charset=utf-8", "other": "text/plain", None: None,
+          # media types are case-insensitive
+          "sse_upper": "Text/Event-Stream", "json_upper": "Application/JSON; Charset=UTF-8"}
 
 EXCS = {
     "connect": lambda req: httpx.ConnectError("connection refused", request=req),
@@ -230,6 +232,7 @@ def single_behaviours() -> List[Dict[str, Any]]:
         for body in ("response", "notes_response", "error"):
             out.append({"status": 200, "ctype": "sse", "body": body, "sse": enc})
             out.append({"status": 200, "ctype": "sse_charset", "body": body, "sse": enc})
+            out.append({"status": 200, "ctype": "sse_upper", "body": body, "sse": enc})
     for status in (400, 401, 404, 500):
         for body in ("error_nullid", "error_foreignid", "error_noid", "error_plain_object"):
             for ct in ("json", "other", None):
@@ -245,6 +248,8 @@ def single_behaviours() -> List[Dict[str, Any]]:
         out.append({"status": 200, "ctype": "sse", "body": f"flood{n}"})
         out.append({"status": 200, "ctype": "json", "body": f"flood{n}"})
     out.append({"status": 200, "ctype": "json_charset", "body": "response"})
+    for body in ("response", "error", "batch", "notes_then_response_list"):
+        out.append({"status": 200, "ctype": "json_upper", "body": body})
     out.append({"status": 200, "ctype": "json", "body": "response", "ascii": True})
     for e in EXCS:
         out.append({"exc": e})
@@ -357,7 +362,7 @@ def reference(step: Dict[str, Any], req_wire: Dict[str, Any]) -> Dict[str, Any]:
         return {"mode": "messages", "alts": [[{"jsonrpc": "2.0", "id": req_wire.get("id"),
                                                "result": {"echo": req_wire.get("method"), "text": TEXT, "n": None}}]]}
     raw, msgs = body_for(beh, req_wire)
-    ct = beh.get("ctype")
+    ct = {"sse_upper": "sse", "json_upper": "json"}.get(beh.get("ctype"), beh.get("ctype"))
     if beh.get("body") in ("sse_note_then_truncated", "json_batch_note_then_junk"):
         # the well-formed part is delivered, and since no answer came the request still ends in one terminal message
         return {"mode": "partial_then_terminal", "alts": [msgs]}
